@@ -35,6 +35,7 @@ func checkC10(c *Ctx, r *Report) {
 	c10Kinds(c, r, a)
 	c10Arg(c, r, a)
 	c10Req(c, r, a, "C10.REQ")
+	c10ArgFrozen(c, r, a)
 	c10Dirs(c, r)
 	c10Cond(c, r)
 	c10Pre(c, r, a, "C10.PRE")
@@ -445,6 +446,7 @@ func c10Dirs(c *Ctx, r *Report) {
 	r.check("C10.DIRS", fnName(vdu)+": rejects a use whose directive is not a defined *Directive", vdu.Pos(), unknownDir, "missing rejection of unknown directives")
 	r.check("C10.DIRS", fnName(vdu)+": rejects a use at a location not listed in the directive's On", vdu.Pos(), badLoc, "missing rejection of misplaced directives")
 	r.check("C10.DIRS", fnName(vdu)+": rejects an argument the directive does not declare", vdu.Pos(), unknownArg, "missing rejection of unknown directive arguments")
+	dirUseArgLoop(c, r, "C10.DIRS")
 }
 
 func posFn(f *ssa.Function) token.Pos {
@@ -671,4 +673,138 @@ func c10DirReq(c *Ctx, r *Report) {
 	sub := newReport("C10", r.Tier, c)
 	c16DefaultsBody(c, sub)
 	r.floor("C10.DIRREQ", "directive-use completions in the reader", n, 1)
+}
+
+// dirUseArgLoop: the argument loop of validateDirUse. (a) the lookup of the argument in the directive's
+// declaration is reached for every argument of the use (inside the loop it is guarded by nothing but the
+// loop's own condition); (b) the coercion of the value to the declared type is reached for every argument
+// that was found, is not a variable reference and whose type is an input coercer - no other test (a value
+// that happens to be null, a kind of value) may route an argument round it.
+func dirUseArgLoop(c *Ctx, r *Report, rule string) {
+	vdu := c.fn("(*Root).validateDirUse")
+	if vdu == nil {
+		r.undecided(rule, "anchor validateDirUse", token.NoPos, "not found")
+		return
+	}
+	loops := loopsOf(vdu)
+	var find, coerce ssa.CallInstruction
+	for _, ci := range callsIn(vdu) {
+		if innermostLoop(loops, ci.Block()) == nil {
+			continue
+		}
+		if cal := ci.Common().StaticCallee(); cal != nil && cal.Name() == "findArg" {
+			find = ci
+		}
+		if ci.Common().IsInvoke() && ci.Common().Method.Name() == "CoerceIn" {
+			coerce = ci
+		}
+	}
+	if find == nil || coerce == nil {
+		r.check(rule, fnName(vdu)+": argument loop looks every argument up and coerces its value", vdu.Pos(), false, fmt.Sprintf("findArg call in loop found=%v, CoerceIn call in loop found=%v", find != nil, coerce != nil))
+		return
+	}
+	anyPol := map[*ssa.If]bool{} // branches both of whose outcomes lead to the call: polarity not demanded
+	inLoopGuards := func(ci ssa.CallInstruction) []guard {
+		l := innermostLoop(loops, ci.Block())
+		var out []guard
+		for _, g := range blockGuards(ci.Block()) {
+			if g.at != nil && l.body[g.at.Block()] {
+				out = append(out, normGuard(g))
+			}
+		}
+		for _, d := range loopControlDeps(l, ci.Block()) {
+			if d.known {
+				out = append(out, normGuard(d.guard()))
+			} else {
+				anyPol[d.ifi] = true
+				out = append(out, normGuard(d.guard()))
+			}
+		}
+		return out
+	}
+	bad := ""
+	for _, g := range inLoopGuards(find) {
+		if isRangeCond(g.cond) {
+			continue
+		}
+		bad = shortPath(vpath(g.cond))
+	}
+	r.check(rule, fnName(vdu)+": every argument of a directive use is looked up in the directive's declaration", find.Pos(), bad == "",
+		"the lookup is skipped depending on "+bad+": an argument the directive does not declare is accepted when that test routes it round the lookup (e.g. when its value is a variable)")
+	bad = ""
+	findRes := find.(ssa.Value)
+	for _, g := range inLoopGuards(coerce) {
+		if isRangeCond(g.cond) {
+			continue
+		}
+		if v, _, ok := nilCmp(g.cond); ok {
+			if sameVal(v, findRes) {
+				continue // the argument was found
+			}
+			if ex, ok := v.(*ssa.Extract); ok {
+				if ta, ok := ex.Tuple.(*ssa.TypeAssert); ok && c.isNamed(ta.AssertedType, "InCoercer") {
+					continue // the declared type coerces input
+				}
+			}
+		}
+		if f, ok := assertFactOf(g); ok {
+			if derefNamed(f.t) == "Var" && (!f.holds || anyPol[g.at]) {
+				continue // not a variable reference
+			}
+			if derefNamed(f.t) == "InCoercer" && (f.holds || anyPol[g.at]) {
+				continue
+			}
+		}
+		bad = shortPath(vpath(g.cond))
+	}
+	r.check(rule, fnName(vdu)+": every literal argument value of a directive use is coerced to the declared type", coerce.Pos(), bad == "",
+		"the coercion is skipped depending on "+bad+": a value that fails that test is accepted without being checked against the declared type (a null for a non-null argument)")
+}
+
+// c10ArgFrozen: forming the arguments of one field evaluation writes nothing into the schema's field and
+// argument definitions: the write summary of the argument builder (with everything it calls) contains no
+// location of a schema type. A table of required arguments cached on the definition and then filtered in
+// place lets one rejected request erase a required argument for every later request.
+func c10ArgFrozen(c *Ctx, r *Report, a *Anchors) {
+	r.rule("C10.DEFFROZEN", "the write summary of the argument builder contains no location inside a schema definition (FieldDef, Arg, argument lists)")
+	if a.formArgs == nil {
+		r.undecided("C10.DEFFROZEN", "anchor: argument builder", token.NoPos, "not found")
+		return
+	}
+	eng := newEffEngine(c)
+	eng.run(a.formArgs)
+	s := eng.sums[a.formArgs]
+	n, bad := 0, 0
+	if s != nil {
+		var keys []string
+		for k := range s.effects {
+			keys = append(keys, k)
+		}
+		sort.Strings(keys)
+		seen := map[string]bool{}
+		for _, k := range keys {
+			ef := s.effects[k]
+			if !writeKinds[ef.kind] {
+				continue
+			}
+			n++
+			owner := ef.owner
+			if owner == "" && ef.elemOf != "" {
+				owner = ef.elemOf[:strings.IndexByte(ef.elemOf+".", '.')]
+			}
+			if !schemaTypes[owner] || isFreshTarget(ef.target) {
+				continue
+			}
+			key := fmt.Sprintf("%s: %s", fnName(ef.fn), ef.descr())
+			if seen[key] {
+				continue
+			}
+			seen[key] = true
+			bad++
+			r.add("C10.DEFFROZEN", key, ef.pos, Violated, "forming the arguments of a request writes into the schema ("+ef.target.String()+"): what one request leaves there decides what the next request is checked against - a required argument filtered out once is no longer demanded")
+		}
+	}
+	r.fnSeen(fnName(a.formArgs))
+	r.check("C10.DEFFROZEN", fnName(a.formArgs)+": writes nothing into field or argument definitions", a.formArgs.Pos(), bad == 0, fmt.Sprintf("%d write(s) into schema definitions among %d summarised writes", bad, n))
+	r.floor("C10.DEFFROZEN", "functions summarised below the argument builder", len(eng.sums), 5)
 }
